@@ -7,6 +7,7 @@ under all four strict-flag combinations; nested lists for collation."""
 
 from __future__ import annotations
 
+import json
 import re
 from collections import Counter
 
@@ -303,6 +304,17 @@ def check_collated(ctx, case, stratum="collate"):
     from hugr.qsystem.result import QsysResult
 
     shots = [[(t, v) for t, v in s] for s in case["shots"]]
+    if case.get("alias"):
+        # equal list values of a shot are ONE list object (a result row reported again, a shared nested row)
+        ctx.feat("feature:aliased-list-values")
+
+        def share(v, pool):
+            if isinstance(v, list):
+                v = [share(x, pool) for x in v]
+                return pool.setdefault(json.dumps(v), v)
+            return v
+
+        shots = [(lambda pool: [(t, share(v, pool)) for t, v in s])({}) for s in shots]
     exp = outcome(lambda: Counter(model_collate(s) for s in shots))
     obs = outcome(lambda: Counter(frozenset(k) for k in QsysResult(shots).collated_counts().elements()))
     ctx.count("monitor:collated")
@@ -381,8 +393,13 @@ def run(ctx):
         shots = []
         for _ in range(r.randint(1, 5)):
             s = gen_shot(r, bad_p=0.03, regs=["a", "b", "a[0]", "c"])
-            shots.append([[t, nest(r, v)] for t, v in s])
-        c = {"shots": shots}
+            s = [[t, nest(r, v)] for t, v in s]
+            if s and r.random() < 0.4:
+                # the same value reported again (under the same tag, or doubled inside a nested value)
+                t0, v0 = r.choice(s)
+                s.append([t0, v0] if r.random() < 0.6 or not isinstance(v0, list) else [t0, [v0, v0]])
+            shots.append(s)
+        c = {"shots": shots, "alias": i % 2 == 1}
         ctx.case("collate", c, any(len({t for t, _ in s}) < len(s) for s in shots))
         ctx.guard("collate", c, check_collated, ctx, c)
 
